@@ -318,6 +318,21 @@ func TestC16(t *testing.T) {
 		return 100 * int64(time.Hour)
 	}
 
+	// One list longer than any count field of a format can say (EBU STL counts its blocks on five digits): every
+	// boundary is rendered and read back all the same.
+	sub(t, "long-list", func(t *testing.T) {
+		if cfgShard != 0 {
+			return
+		}
+		var ins []int64
+		for i := int64(0); i < 100001; i++ {
+			ins = append(ins, i*800*ms, i*800*ms+400*ms)
+		}
+		ev.Label("list-of-100001-cues")
+		runBatch(t, "stl25", ins)
+		runBatch(t, "srt", ins)
+	})
+
 	// Boundary pools, every format: unit boundaries +-1 ns, hour values, frame boundaries
 	sub(t, "boundaries", func(t *testing.T) {
 		var total int
